@@ -768,6 +768,13 @@ inline void Transport::sendAsync(SessionId sid, iora::core::BufferView data,
 inline ConnectResult Transport::connectSync(const std::string &host, std::uint16_t port,
                                             TlsMode tls, std::chrono::milliseconds timeout)
 {
+  return connectSync(host, port, tls, timeout, std::string());
+}
+
+inline ConnectResult Transport::connectSync(const std::string &host, std::uint16_t port,
+                                            TlsMode tls, std::chrono::milliseconds timeout,
+                                            const std::string &tlsServerName)
+{
   // Guard on thread-identity ALONE (HR-5/DQ-4): getIoThreadId()==_loop.get_id() is
   // the default std::thread::id pre-start/post-detach, so it matches only the real
   // running I/O thread. Dropping the isRunning() conjunct closes the window where
@@ -809,7 +816,9 @@ inline ConnectResult Transport::connectSync(const std::string &host, std::uint16
       TransportErrorInfo{TransportError::ShuttingDown, "transport shutting down"});
   }
 
-  auto result = _impl->engine->connect(host, port, tls);
+  auto result = tlsServerName.empty()
+    ? _impl->engine->connect(host, port, tls)
+    : _impl->engine->connectWithTlsName(host, port, tls, tlsServerName);
   if (result.isErr())
   {
     // Defensive: the current TcpEngine::connect() always returns ok(sid) and
